@@ -15,10 +15,11 @@ class LoopSpec(object):
     """Sidecar loop contract: inv(it, env, i, seq) -> z3 Bool; havoc(it, env) re-binds the variables the
     body modifies to fresh symbols; variant(it, env) -> z3 Int (while loops)."""
 
-    def __init__(self, inv, havoc=None, variant=None):
+    def __init__(self, inv, havoc=None, variant=None, unfold=None):
         self.inv = inv
         self.havoc = havoc or (lambda it, env: None)
         self.variant = variant
+        self.unfold = unfold      # unfold(it, env, i) -> ground instance of a recursive spec definition at iteration i
 
 
 class World(object):
@@ -226,8 +227,11 @@ class World(object):
                 continue
             for st in c.info.node.body:
                 if isinstance(st, ast.Assign) and any(isinstance(t, ast.Name) and t.id == name for t in st.targets):
-                    clo = Closure(st.value, None, c.module, '<class attr>')
-                    return it.eval_in(st.value, clo)
+                    key = ('<class %s>' % c.name, name)
+                    if key not in self.path_globals:
+                        clo = Closure(st.value, None, c.module, '<class attr>')
+                        self.path_globals[key] = it.eval_in(st.value, clo)
+                    return self.path_globals[key]
         return NotImpl
 
     def loop_spec(self, it, clo, ordinal):
